@@ -198,7 +198,7 @@ pub fn run(r: &Report, which: &str) {
                     (d, n)
                 })
                 .collect(),
-            fillers: vec!["a"],
+            fillers: vec!["a", " "],
             with_prefixes: true,
         },
         (false, Tier::Thorough) => Space {
@@ -209,14 +209,14 @@ pub fn run(r: &Report, which: &str) {
                     (d, n)
                 })
                 .collect(),
-            fillers: vec!["a"],
+            fillers: vec!["a", " "],
             with_prefixes: true,
         },
     };
     if c07 {
         r.set_rule("every string of <= N atoms over {each character of ds and de, every proper prefix (len>=2) of ds and de, ds, de, ' ', '\\n', 'a', 'é'(2B), 'あ'(3B), '🧹'(4B)} per delimiter pair, tokenized by the real tokenizer; oracle = the intrinsic partition clauses of C07; non-trivial = distinct strings with >= 1 reference tag token, or ending in a multi-byte character after a failed delimiter start");
     } else {
-        r.set_rule("every string of <= N atoms over {each character of ds and de, every proper prefix (len>=2), ds, de, 'a'} per delimiter pair; oracle = tag spans equal the textbook leftmost-shortest scan (reference uses str::find); non-trivial = distinct strings with >= 1 reference tag and >= 1 failed partial delimiter match");
+        r.set_rule("every string of <= N atoms over {each character of ds and de, every proper prefix (len>=2), overlap rests, ds, de, 'a', ' '} per delimiter pair; oracle = tag spans equal the textbook leftmost-shortest scan (reference uses str::find); non-trivial = distinct strings with >= 1 reference tag and >= 1 failed partial delimiter match");
     }
     r.assume("delimiters are non-empty (the subject unwraps the first delimiter character)");
     let mut per_pair = vec![];
